@@ -324,6 +324,14 @@ def rule_N5(ctx: Ctx) -> None:
     hh = ctx.index.func(f"{MT}.MazeTokenizerModular.__hash__")
     r = X.returns_of(hh.node)
     ctx.judge(hh, len(r) == 1 and X.same_expr(r[0].value, "self.hash_int()"), {"returns": X.U(r[0].value) if r else None}, "__hash__ is hash_int()")
+    # width of the file-name hash: with N = 5,878,656 configurations the chance of *any* two colliding is about N^2 / 2^(bits+1); 64 bits keep
+    # it near 1e-6, 32 bits make thousands of collisions certain
+    hb = ctx.index.func(f"{MT}.MazeTokenizerModular.hash_b64")
+    nb = hb.param_default("n_bytes")
+    nb_v = N.const_int(nb) if nb is not None else None
+    ctx.judge(hb, None if nb_v is None else nb_v >= 8, {"default_n_bytes": nb_v, "bits": None if nb_v is None else 8 * nb_v},
+              "hash_b64 keeps at least 64 bits of the digest by default: distinct tokenizers of the 5.9 million get distinct stable hashes",
+              "with fewer bits the birthday bound is passed: different tokenizers share a stable hash / file name")
     nm = ctx.index.func(f"{ELEMENT}.name")
     builtin = [x for x in X.calls(nm.node) if dotted_of(x.func) == "hash"]
     ctx.judge(nm, not builtin, {"builtin_hash_calls": len(builtin)}, "names never involve builtin hash()")
@@ -459,7 +467,7 @@ RULES = [
     Rule("C15.N2", rule_N2, floor=8, doc="enumeration soundness premises"),
     Rule("C15.N3", rule_N3, floor=1, doc="two encodings of one rule agree on 340 tuples"),
     Rule("C15.N4", rule_N4, floor=4, doc="name injectivity premises"),
-    Rule("C15.N5", rule_N5, floor=7, doc="process-stable hashes"),
+    Rule("C15.N5", rule_N5, floor=8, doc="process-stable hashes"),
     Rule("C15.N6", rule_N6, floor=10, doc="load resolves the right namespace"),
     Rule("C15.N7", rule_N7, floor=3, doc="legacy mapping"),
 ]
